@@ -88,6 +88,16 @@ def gen(spec):
         for m in sc["members"]:
             m["topics"] = ["ga"]
         sc["events"] = [e for e in sc["events"] if e[1] == "append"] + [[round(rng.uniform(1.0, 3.0), 3), "grow", "ga"]]
+        # ... and, in some, the second assignment happens while a partition has no leader, or while the topic's
+        # metadata reports an error with only part of its partitions
+        t_join = sc["members"][1]["start"]
+        r = rng.random()
+        if r < 0.3 and sc["topics"]["ga"] >= 2:
+            sc["events"].append([round(t_join - rng.choice((0.2, 0.6)), 3), "leaderless", "ga",
+                                 rng.randrange(sc["topics"]["ga"]), rng.choice((1.5, 3.0))])
+        elif r < 0.6 and sc["topics"]["ga"] >= 2:
+            keep = sorted(rng.sample(range(sc["topics"]["ga"]), rng.randint(1, sc["topics"]["ga"] - 1)))
+            sc["events"].append([round(t_join - rng.choice((0.1, 0.3)), 3), "expanding", "ga", keep, rng.choice((0.6, 1.2))])
         sc["events"].sort(key=lambda e: e[0])
         sc["horizon"] = 14.0
     return sc
